@@ -153,6 +153,60 @@ def length_set(mtu):
     return [0, 1, P - 6, P - 5, P - 1, P, P + 1, P // 2, P // 2 + 1]
 
 
+def stall_scenario(params, ch):
+    """retry-mode messages first sent on consecutive send opportunities, acks withheld, then the owner
+    stalls (one long frame): everything due for resend meets in ONE packet build"""
+    mtu, path, sizes, mode, stall = params
+    sender = "c" if path == "client" else "s"
+    mon = DeliveryMonitor(flag_delivery=True)
+    sm = SizeMonitor(mtu)
+    w = World(chooser=ch, monitors=[mon, sm], mtu=mtu, dt=0.02, server_send=("thread" if path == "server-thread" else "twisted"))
+    try:
+        w.run_until_connected()
+        w.run(2)
+        w.start_blackout("s2c" if sender == "c" else "c2s", 40)   # acks are late
+        queued = []
+        for i, L in enumerate(sizes):
+            data = payload(i + 1, L)
+            queued.append(data)
+            e = app_send(w, mon, sender, data, mode)
+            if e is not None:
+                ch.flag("send-raises", "send() raises %s" % type(e).__name__, repr(e))
+            w.tick()
+        w.tick(dt=stall)
+        w.run(3)
+        w.tick(dt=stall)
+        recv = "s" if sender == "c" else "c"
+        w.run(150, lambda w: sum(mon.delivered[recv].values()) >= len(queued))
+        ch.steps = w.tickno
+        if w.exceptions:
+            ch.flag("packing-raises", "exception from the %s send/update path: %s" % (path, w.exceptions[0][1].split("(")[0]), repr(w.exceptions[:2]))
+        if w.baton.dead:
+            ch.flag("packing-raises", "server thread died while sending", repr(w.baton.error))
+        lost = [len(d) for d in queued if mon.delivered[recv].get(d, 0) < 1]
+        if lost:
+            ch.flag("lost-message", "queued retry-mode message(s) never reached the peer after an owner stall", "lengths %r" % lost)
+        ch.outcome = (sm.max <= mtu - 28, len(lost))
+    finally:
+        for v in mon.violations + sm.violations:
+            ch.flag(*v)
+        w.close()
+
+
+def stall_params(tier):
+    out = []
+    for mtu in ((1500, 512) if tier == "quick" else (1500, 1095, 512)):
+        P, F = caps(mtu)
+        for path in ("client", "server-twisted", "server-thread"):
+            for mode in ("best", "retry"):
+                for sizes in ((P, P), (P // 2 + 1, P // 2 + 1, P // 2 + 1), (P, 1, P), (3 * F + 10,), (P - 5, P - 5, 0, 1)):
+                    for stall in (0.25, 0.6):
+                        if tier == "quick" and stall == 0.6 and path != "client":
+                            continue
+                        out.append((mtu, path, sizes, mode, stall))
+    return out
+
+
 def scenario(params, ch):
     mtu, path, sends, burst = params
     sender = "c" if path == "client" else "s"
@@ -266,14 +320,21 @@ def run(tier, seed):
         key = (v["oracle"], v["sig"])
         if key not in acc:
             acc[key] = [sig_counts.get(key, 1), {"part": "packing", "params": v["params"], "choices": v["choices"]}, v["message"] + " | params=%r" % (v["params"],)]
+    splist = stall_params(tier)
+    st2 = explore.explore_all("checks.c09", "stall_scenario", splist, 0, time_budget=(120 if tier == "quick" else 900))
+    for v in st2.violations:
+        key = (v["oracle"], v["sig"])
+        if key not in acc:
+            acc[key] = [getattr(st2, "sig_counts", {}).get(key, 1), {"part": "stall", "params": v["params"], "choices": v["choices"]}, v["message"] + " | params=%r" % (v["params"],)]
     for (oracle, sig), (cnt, wit, msg) in sorted(acc.items()):
         rep.add_violation(core.Violation(oracle, sig, wit, "%s [%d cases]" % (msg[:400], cnt)))
     rep.coverage = {
-        "evaluations": total + st.executions, "distinct_nontrivial": nontrivial + len(st.outcomes),
+        "evaluations": total + st.executions + st2.executions, "distinct_nontrivial": nontrivial + len(st.outcomes) + len(st2.outcomes),
         "codec_cases": total, "codec_exact_round_trips": nontrivial, "codec_classes": dict(classes),
+        "stall_executions": st2.executions, "stall_configurations": len(splist),
         "packing_executions": st.executions, "packing_configurations": len(plist), "packing_ticks": st.steps, "packing_capped": st.capped,
         "rule": "codec: isServer x 4 ctimes x 8 types x 5x5 seq/ack x 5 ack_bits x %d message lists (count 0,1,2 with all 64 inner type pairs,3,254,255) x {crc, gcm}%s; non-trivial = exact round trips. "
-                "packing: MTUs x {client, server-twisted, server-thread} x every send sequence of <=2/3 lengths from {0,1,P-6,P-5,P-1,P,P+1,P/2,P/2+1} per retry mode, mixed-mode triples, bursts of 254..300 messages of 0/1 bytes; perfect network until drained" % (
+                "packing: MTUs x {client, server-twisted, server-thread} x every send sequence of <=2/3 lengths from {0,1,P-6,P-5,P-1,P,P+1,P/2,P/2+1} per retry mode, mixed-mode triples, bursts of 254..300 messages of 0/1 bytes; perfect network until drained. stall: retry-mode messages sent on consecutive frames with withheld acks, then one or two long frames (0.25/0.6 s) so that everything due for resend meets in one build" % (
                     len(message_lists()), " (quick: every 5th list per header, rotating)" if tier == "quick" else ""),
         "exhaustive": not st.capped,
         "samples": [{"codec": {"type": 6, "seq": 65535, "ack": 0, "msgs": "count255", "key": True}},
@@ -286,6 +347,9 @@ def run(tier, seed):
 
 
 def replay(witness):
+    if witness.get("part") == "stall":
+        ch = explore.replay_choices(stall_scenario, _tup(witness["params"]), witness.get("choices", []))
+        return [core.Violation(o, s, witness, m) for o, s, m in ch.found]
     if witness.get("part") == "packing":
         ch = explore.replay_choices(scenario, _tup(witness["params"]), witness.get("choices", []))
         return [core.Violation(o, s, witness, m) for o, s, m in ch.found]
